@@ -92,6 +92,11 @@ def cases(seed, tier):
         if i % 4 == 2:
             c02.dropin_noise(rng, rulesets, ticks, p=0.4)
         scn = c02.mk_scn(cid, {"rulesets": rulesets}, scripts, ticks, {"cgroups": cg})
+        if i % 5 == 3:
+            # for one tick the directory of a matching cgroup cannot be opened (EMFILE): that says nothing about the cgroup, which
+            # exists throughout - its instance, pause and suspended chain are still there on the next tick
+            ft = rng.randint(1, nticks - 2)
+            scn["file_faults"] = [{"cg": u, "mode": "emfile", "from_tick": ft, "to_tick": ft} for u in rng.sample(universe, rng.choice([1, 1, 2, 4]))]
         yield core.Case(cid, [scn], {"pattern": pat, "xattr": use_x, "ticks": nticks})
 
 
@@ -289,7 +294,11 @@ def judge(case, results):
         v.bad("crash:" + cr[0], cr[1], cr[2])
         return v
     live, ws = live_sets(scn)
-    viol, st = engine.check(scn["config"], res.events, live=live, nticks=len(scn["ticks"]))
+    excused = None
+    if scn.get("file_faults"):
+        excused = {name: [{f["cg"] for f in scn["file_faults"] if f["from_tick"] <= ti <= f["to_tick"]} for ti in range(len(per))] for name, per in live.items()}
+    viol, st = engine.check(scn["config"], res.events, live=live, nticks=len(scn["ticks"]), excused=excused)
+    st["open_faults_fired"] = sum(1 for e in res.events if e.get("ev") == "open_fault")
     st["dropin_requests"] = sum(1 for e in res.events if e.get("ev") == "dropin")
     st["dropin_adds_applied"] = sum(1 for e in res.events if e.get("ev") == "dropin_result" and e["op"] == "add" and e["ok"])
     st["dropin_adds_rolled_back"] = sum(1 for e in res.events if e.get("ev") == "dropin_result" and e["op"] == "add" and not e["ok"])
